@@ -1300,6 +1300,8 @@ def make_builtins(I):
             r = SymSeq(x.length, x.elem, "tuple", x.name)
             if hasattr(x, "origin_set"):
                 r.origin_set = x.origin_set
+            if hasattr(x, "max_len"):
+                r.max_len = x.max_len
             return r
         return tuple(iterate(I, x))
 
@@ -1308,6 +1310,22 @@ def make_builtins(I):
         (CPython iterates in hash-table order, which the language does not specify)"""
         n = card(I, x)
         arr = z3.Array(I.path.fresh_name("setiter"), IntS, IntS)
+        gen = _enum_elements(x.arr)
+        if gen is not None and 0 < len(gen) <= 6:
+            # set built from finitely many (guarded) elements: the same contract without quantifiers (positions 0..m-1 suffice as n <= m)
+            m = len(gen)
+            I.path.assume(z3.And(n >= 0, n <= m))
+            for p in range(m):
+                I.path.assume(z3.Implies(p < n, z3.Or([z3.And(g, arr[p] == e) for g, e in gen])))
+                for q in range(p):
+                    I.path.assume(z3.Implies(p < n, arr[p] != arr[q]))
+            for g, e in gen:
+                I.path.assume(z3.Implies(g, z3.Or([z3.And(p < n, arr[p] == e) for p in range(m)])))
+            I.path.notes.add("iteration over a set of ints: trusted contract (enumeration without repetition, arbitrary order)")
+            r = SymSeq(n, lambda i, arr=arr: arr[to_z3(i)], "list")
+            r.origin_set = x.arr
+            r.max_len = m
+            return r
         k, j, v = (z3.Int(I.path.fresh_name(s)) for s in ("k_si", "j_si", "v_si"))
         rng = lambda t: z3.And(t >= 0, t < n)
         I.path.assume(z3.ForAll([k], z3.Implies(rng(k), z3.Select(x.arr, arr[k])), patterns=[arr[k]]))
@@ -1341,6 +1359,13 @@ def make_builtins(I):
             if not z3.is_int(body):
                 raise Unsupported("hash of a sequence of non-integers")
             n = to_z3(sq.length)
+            bound = sq.length if isinstance(sq.length, int) else getattr(sq, "max_len", None)
+            if isinstance(bound, int) and bound <= 8:
+                # at most `bound` elements: the same normalised array as a chain of stores (no lambda, so the query stays decidable)
+                arr = z3.K(IntS, z3.IntVal(0))
+                for p in range(bound):
+                    arr = z3.If(p < n, z3.Store(arr, p, to_z3(sq.elem(p))), arr)
+                return _HQ(n, arr)
             return _HQ(n, z3.Lambda([j], z3.If(z3.And(j >= 0, j < n), body, z3.IntVal(0))))      # only the first `length` elements matter
         if isinstance(o, Obj):
             m = I.repo.find_method(o.cls, "__hash__")
